@@ -48,6 +48,8 @@ type Loader struct {
 	visitedRefs map[string]struct{}
 	visitedPath []string
 	backtrack   map[string][]func(value any)
+	// backtrackErr: a reference that waited for another one to finish found an object of another kind
+	backtrackErr error
 }
 
 // NewLoader returns an empty Loader
@@ -62,6 +64,7 @@ func (loader *Loader) resetVisitedPathItemRefs() {
 	loader.visitedRefs = make(map[string]struct{})
 	loader.visitedPath = nil
 	loader.backtrack = make(map[string][]func(value any))
+	loader.backtrackErr = nil
 }
 
 // LoadFromURI loads a spec from a remote URL
@@ -195,6 +198,11 @@ func (loader *Loader) ResolveRefsIn(doc *T, location *url.URL) (err error) {
 	if loader.visitedPathItemRefs == nil {
 		loader.resetVisitedPathItemRefs()
 	}
+	defer func() {
+		if err == nil {
+			err = loader.backtrackErr
+		}
+	}()
 
 	if components := doc.Components; components != nil {
 		for _, name := range componentNames(components.Headers) {
@@ -352,6 +360,16 @@ func (loader *Loader) unvisitRef(ref string, value any) {
 	delete(loader.visitedRefs, ref)
 	delete(loader.backtrack, ref)
 	loader.visitedPath = loader.visitedPath[:len(loader.visitedPath)-1]
+}
+
+// backtrackedAs gives the object a reference that was in progress has resolved to, as the kind
+// the waiting position expects; a reference to another kind of object is remembered as an error.
+func backtrackedAs[T any](loader *Loader, ref string, value any) (T, bool) {
+	resolved, ok := value.(T)
+	if !ok && loader.backtrackErr == nil {
+		loader.backtrackErr = fmt.Errorf("bad data in %q (expecting %T, found %T)", ref, resolved, value)
+	}
+	return resolved, ok
 }
 
 func (loader *Loader) shouldVisitRef(ref string, fn func(value any)) bool {
@@ -629,7 +647,11 @@ func (loader *Loader) resolveHeaderRef(doc *T, component *HeaderRef, documentPat
 			return nil
 		}
 		if !loader.shouldVisitRef(ref, func(value any) {
-			component.Value = value.(*Header)
+			resolved, ok := backtrackedAs[*Header](loader, ref, value)
+			if !ok {
+				return
+			}
+			component.Value = resolved
 			refPath, _ := loader.resolveRefPath(ref, documentPath)
 			component.setRefPath(refPath)
 		}) {
@@ -683,7 +705,11 @@ func (loader *Loader) resolveParameterRef(doc *T, component *ParameterRef, docum
 			return nil
 		}
 		if !loader.shouldVisitRef(ref, func(value any) {
-			component.Value = value.(*Parameter)
+			resolved, ok := backtrackedAs[*Parameter](loader, ref, value)
+			if !ok {
+				return
+			}
+			component.Value = resolved
 			refPath, _ := loader.resolveRefPath(ref, documentPath)
 			component.setRefPath(refPath)
 		}) {
@@ -748,7 +774,11 @@ func (loader *Loader) resolveRequestBodyRef(doc *T, component *RequestBodyRef, d
 			return nil
 		}
 		if !loader.shouldVisitRef(ref, func(value any) {
-			component.Value = value.(*RequestBody)
+			resolved, ok := backtrackedAs[*RequestBody](loader, ref, value)
+			if !ok {
+				return
+			}
+			component.Value = resolved
 			refPath, _ := loader.resolveRefPath(ref, documentPath)
 			component.setRefPath(refPath)
 		}) {
@@ -815,7 +845,11 @@ func (loader *Loader) resolveResponseRef(doc *T, component *ResponseRef, documen
 			return nil
 		}
 		if !loader.shouldVisitRef(ref, func(value any) {
-			component.Value = value.(*Response)
+			resolved, ok := backtrackedAs[*Response](loader, ref, value)
+			if !ok {
+				return
+			}
+			component.Value = resolved
 			refPath, _ := loader.resolveRefPath(ref, documentPath)
 			component.setRefPath(refPath)
 		}) {
@@ -895,7 +929,11 @@ func (loader *Loader) resolveSchemaRef(doc *T, component *SchemaRef, documentPat
 			return nil
 		}
 		if !loader.shouldVisitRef(ref, func(value any) {
-			component.Value = value.(*Schema)
+			resolved, ok := backtrackedAs[*Schema](loader, ref, value)
+			if !ok {
+				return
+			}
+			component.Value = resolved
 			refPath, _ := loader.resolveRefPath(ref, documentPath)
 			component.setRefPath(refPath)
 		}) {
@@ -981,7 +1019,11 @@ func (loader *Loader) resolveSecuritySchemeRef(doc *T, component *SecurityScheme
 			return nil
 		}
 		if !loader.shouldVisitRef(ref, func(value any) {
-			component.Value = value.(*SecurityScheme)
+			resolved, ok := backtrackedAs[*SecurityScheme](loader, ref, value)
+			if !ok {
+				return
+			}
+			component.Value = resolved
 			refPath, _ := loader.resolveRefPath(ref, documentPath)
 			component.setRefPath(refPath)
 		}) {
@@ -1021,7 +1063,11 @@ func (loader *Loader) resolveExampleRef(doc *T, component *ExampleRef, documentP
 			return nil
 		}
 		if !loader.shouldVisitRef(ref, func(value any) {
-			component.Value = value.(*Example)
+			resolved, ok := backtrackedAs[*Example](loader, ref, value)
+			if !ok {
+				return
+			}
+			component.Value = resolved
 			refPath, _ := loader.resolveRefPath(ref, documentPath)
 			component.setRefPath(refPath)
 		}) {
@@ -1065,7 +1111,11 @@ func (loader *Loader) resolveCallbackRef(doc *T, component *CallbackRef, documen
 			return nil
 		}
 		if !loader.shouldVisitRef(ref, func(value any) {
-			component.Value = value.(*Callback)
+			resolved, ok := backtrackedAs[*Callback](loader, ref, value)
+			if !ok {
+				return
+			}
+			component.Value = resolved
 			refPath, _ := loader.resolveRefPath(ref, documentPath)
 			component.setRefPath(refPath)
 		}) {
@@ -1121,7 +1171,11 @@ func (loader *Loader) resolveLinkRef(doc *T, component *LinkRef, documentPath *u
 			return nil
 		}
 		if !loader.shouldVisitRef(ref, func(value any) {
-			component.Value = value.(*Link)
+			resolved, ok := backtrackedAs[*Link](loader, ref, value)
+			if !ok {
+				return
+			}
+			component.Value = resolved
 			refPath, _ := loader.resolveRefPath(ref, documentPath)
 			component.setRefPath(refPath)
 		}) {
@@ -1166,7 +1220,11 @@ func (loader *Loader) resolvePathItemRef(doc *T, pathItem *PathItem, documentPat
 			return
 		}
 		if !loader.shouldVisitRef(ref, func(value any) {
-			*pathItem = *value.(*PathItem)
+			resolved, ok := backtrackedAs[*PathItem](loader, ref, value)
+			if !ok {
+				return
+			}
+			*pathItem = *resolved
 		}) {
 			return nil
 		}
